@@ -22,7 +22,7 @@ def run(ctx, res):
         "build_pretty_string_item with identical arguments except the literal `coloring`; inside, `coloring` only selects the "
         "colour strings, which flow only into push_str and capacity computations; every colour constant is ESC [ digits m and "
         "no other constant contains ESC; R3 the backward scanner examines byte 0 (files whose first byte is a line break).  "
-        "R4 the code block is pushed through an unconditional replace(tab, four spaces); R5 no other text-rewriting operation (trim / case / escape / split*) is applied to listed text; R6 / R6b the tab count that widens a marker column is taken over the marker's own line prefix (non-pausing line start) and counts exactly the tabs; R7 line map and find_line; R8 the frame: padding* `_start` line-break code-block padding* `‾end`, appended unconditionally and in this order, each padding from its own marker's counts; R9 the shown text is one contiguous chain of content slices from the first line's start to the last line's end (bounds evaluated by the interpreter), the highlighted part is the region itself, the numbers run over first..=last taking one line each, the line range is (line of first byte, line of last byte).  Not decided: the widths of the padding and of the number column (rendering arithmetic).")
+        "R4 the code block is pushed through an unconditional replace(tab, four spaces); R5 no other text-rewriting operation (trim / case / escape / split*) is applied to listed text; R6 / R6b the tab count that widens a marker column is taken over the marker's own line prefix (non-pausing line start) and counts exactly the tabs; R7 line map and find_line; R8 the frame: padding* `_start` line-break code-block padding* `‾end`, appended unconditionally and in this order, each padding from its own marker's counts; R9 the shown text is one contiguous chain of content slices from the first line's start to the last line's end (bounds evaluated by the interpreter), the highlighted part is the region itself, the numbers run over first..=last taking one line each, the line range is (line of first byte, line of last byte).  R10 the widths: the padding in front of `_start` adds up (as a linear form over start, end, the line starts, the tab counts and the number-column offset, local definitions read through) to offset + (start - line start) + 3 x tabs, the padding in front of `‾end` to offset + (end - 1 - line start of the last line) + 3 x tabs, the offset is 0 without line numbers and otherwise the width of the number column read off the format string (width argument + literal text).  Not decided: line numbers with more digits than the number column, non-ASCII text to the left of a marker (excluded by the property), a tab as the last removed character.")
     res.trusted += ["serde_json serialises a derived struct as an object with its field names, a unit variant as its name", "driver fact extraction and the abstract interpreter"]
     schema(ctx, res, "C16.R1")
     colour(ctx, res, "C16.R2")
@@ -34,6 +34,7 @@ def run(ctx, res):
     frame(ctx, res, "C16.R8")
     shown_lines(ctx, res, "C16.R9")
     tab_counter(ctx, res, "C16.R6b")
+    padding_widths(ctx, res, "C16.R10")
 
 
 def frame(ctx, res, rule):
@@ -63,6 +64,8 @@ def frame(ctx, res, rule):
             colour_ids |= {q["id"] for q in s_["pat"]["pats"] if q.get("p") == "bind"}
     pieces = []
     pad_texts = []
+    frame_nodes = []
+    ctx._c16_frame = frame_nodes
     for n, par in T.walk(b["tree"]):
         if n.get("k") == "path" and T.local_of(n) in alias:
             p_ = par[-1] if par else {}
@@ -105,6 +108,7 @@ def frame(ctx, res, rule):
                 kind = "?(%s)" % r[:40]
             pieces.append(kind)
             pad_texts.append((kind, r))
+            frame_nodes.append((kind, a))
     seq = "".join(k for k in pieces if k != "c") if all(len(k) == 1 for k in pieces) else " ".join(pieces)
     # the padding in front of a marker is computed from that marker's own line (R6 says over which text): the tab count taken
     # up to `start` does not pad the end marker and vice versa
@@ -911,3 +915,248 @@ def colour(ctx, res, rule):
     flows(item, ids, 0)
     nuse = nuse[0]
     res.floor(rule, "uses of the colour strings", nuse, 8)
+
+
+def padding_widths(ctx, res, rule):
+    """`a _start marker in the column of the first removed character and an ‾end marker in the column of the last one (columns
+    counted with tab = 4, for ASCII text to the left of the marker)`: with ASCII text the column of byte p on a line starting at
+    L, shown behind a number column of width W, is W + (p - L) + 3 * tabs(content[L..p]).  The padding pieces that `frame` (R8)
+    listed in front of each marker are summed as a linear form (unit string length x repeat count, immutable local definitions
+    read through) and compared with that column; W is the second component of the (code block, offset) pair: 0 without line
+    numbers, the width of the formatted number column with them."""
+    from .. import linear
+    P = ctx.lib
+    b = P.fn("list::build_pretty_string_item")
+    fn = fshort(b)
+    loc = T.loc(b["tree"])
+    nodes_ = getattr(ctx, "_c16_frame", None)
+    if not nodes_:
+        res.cannot(rule, fn, "padding", "the pieces of the frame were not listed (see C16.R8)", loc)
+        return
+    ps_ = [p_["pat"] for p_ in b["params"]]
+    if len(ps_) < 3 or not all(p_.get("p") == "bind" for p_ in ps_[:3]):
+        res.cannot(rule, fn, "padding", "parameters (content, start, end) not recognised", loc)
+        return
+    start_id, end_id = ps_[1]["id"], ps_[2]["id"]
+    defs = {}
+    ofs_let = None
+    for s_ in T.nodes(b["tree"], "let"):
+        if s_.get("init") is None:
+            continue
+        if s_["pat"].get("p") == "bind" and s_["pat"].get("mode") == "BindingMode(No, Not)":
+            defs[s_["pat"]["id"]] = s_["init"]
+        i_ = T.peel(s_["init"])
+        if s_["pat"].get("p") == "tuple" and len(s_["pat"]["pats"]) == 2 and i_.get("k") == "if" and s_["pat"]["pats"][1].get("p") == "bind" \
+                and s_["pat"]["pats"][1].get("ty") == "usize" and "line_range" in T.render(i_["cond"]):
+            ofs_let = s_
+    names = {}
+
+    def lin_of(n, depth=0):
+        n = T.peel(n)
+        k = n.get("k")
+        if k == "lit" and isinstance(n["v"][0], int) and not isinstance(n["v"][0], bool):
+            return {"1": n["v"][0]} if n["v"][0] else {}
+        v = T.lit_value(n)
+        if isinstance(v, int) and not isinstance(v, bool) and k == "path":
+            return {T.short_path(T.render(n)).split("::")[-1]: 1}
+        if k == "binary" and n["op"] in ("+", "-") and not n.get("overloaded"):
+            a_, b_ = lin_of(n["l"], depth), lin_of(n["r"], depth)
+            return None if a_ is None or b_ is None else linear.combine(a_, b_, 1 if n["op"] == "+" else -1)
+        if k == "binary" and n["op"] == "*" and not n.get("overloaded"):
+            for x, y in ((n["l"], n["r"]), (n["r"], n["l"])):
+                c = T.lit_value(x)
+                if isinstance(c, int) and not isinstance(c, bool):
+                    f = lin_of(y, depth)
+                    return None if f is None else {k_: c * v_ for k_, v_ in f.items() if c * v_}
+            return None
+        lid = T.local_of(n)
+        if lid is not None:
+            if lid == start_id:
+                return {"start": 1}
+            if lid == end_id:
+                return {"end": 1}
+            d = defs.get(lid)
+            if d is not None and depth < 8:
+                dd = T.peel(d)
+                if dd.get("k") in ("binary", "lit", "path") and (dd.get("k") != "binary" or dd["op"] in ("+", "-", "*")):
+                    return lin_of(d, depth + 1)
+                if dd.get("k") == "call" and T.short_path(T.callee(dd) or "").endswith("count_tabspace") and len(dd["args"]) == 1:
+                    key = "tabs[%s]" % T.render(T.peel_ref(dd["args"][0]))
+                    names[key] = dd
+                    return {key: 1}
+            return {"$" + T.render(n): 1}
+        if k == "call" and T.short_path(T.callee(n) or "").endswith("count_tabspace") and len(n["args"]) == 1:
+            key = "tabs[%s]" % T.render(T.peel_ref(n["args"][0]))
+            names[key] = n
+            return {key: 1}
+        return {"$" + T.render(n): 1}
+
+    def unit_len(a):
+        r_ = T.peel_ref(a["recv"])
+        v = T.lit_value(r_)
+        if v is None and r_.get("k") == "mcall" and r_["name"] in ("to_string", "to_owned"):
+            v = T.lit_value(T.peel_ref(r_["recv"]))
+        return len(v) if isinstance(v, str) and set(v) == {" "} else None
+
+    sums = {"S": {}, "E": {}}
+    seen_block = False
+    bad = None
+    for kind, a in nodes_:
+        if kind == "B":
+            seen_block = True
+        elif kind == "P":
+            u = unit_len(a)
+            f = lin_of(a["args"][0]) if len(a.get("args") or []) == 1 else None
+            if u is None or f is None:
+                bad = T.render(a)[:70]
+                break
+            side = "E" if seen_block else "S"
+            sums[side] = linear.combine(sums[side], {k_: u * v_ for k_, v_ in f.items()}, 1)
+    if bad:
+        res.cannot(rule, fn, "padding:" + bad, "the width of the padding `%s` is not a linear form of the item's quantities" % bad, loc)
+        return
+    ofs_key = None
+    if ofs_let is not None:
+        ofs_key = "$" + ofs_let["pat"]["pats"][1]["name"]
+    for side, marker, pos, minus1 in (("S", "_start", "start", 0), ("E", "\u203eend", "end", -1)):
+        tot = dict(sums[side])
+        tabs = [k_ for k_ in tot if k_.startswith("tabs[")]
+        m = re.match(r"^tabs\[\w+\[(\w+)\.\.(\w+)\]\]$", tabs[0]) if len(tabs) == 1 else None
+        want = None
+        if m and m.group(2) == pos:
+            want = {tabs[0]: 3, pos: 1, "$" + m.group(1): -1}
+            if minus1:
+                want["1"] = minus1
+            if ofs_key:
+                want[ofs_key] = 1
+        if want is not None and tot == want:
+            res.holds(rule, fn, "padding-width:" + marker, "sum of the padding = " + linear.show(tot))
+        else:
+            res.add(Finding(rule, fn, "padding-width:" + marker,
+                            "the padding in front of `%s` adds up to [%s]; the column of the %s removed character (tab = 4, behind the number column) is "
+                            "offset + (%s%s - line start) + 3 x tabs(line start..%s)" % (marker, linear.show(tot), "first" if pos == "start" else "last", pos, " - 1" if minus1 else "", pos), loc=loc))
+    # the offset: 0 without line numbers, the width of the number column with them
+    if ofs_let is None:
+        res.cannot(rule, fn, "offset", "the (code block, offset) pair selected by `line_range` was not found", loc)
+        return
+    i_ = T.peel(ofs_let["init"])
+
+    def tail_tuple(blk):
+        blk = T.peel(blk)
+        while blk is not None and blk.get("k") in ("blockexpr", "block"):
+            blk = blk["block"] if blk.get("k") == "blockexpr" else (T.peel(blk["tail"]) if blk.get("tail") is not None else None)
+        return blk if blk is not None and blk.get("k") == "tuple" and len(blk.get("es", blk.get("elems", []))) == 2 else None
+    th, el = tail_tuple(i_["then"]), tail_tuple(i_["els"]) if i_.get("els") is not None else None
+    if th is None or el is None:
+        res.cannot(rule, fn, "offset", "the branches of the (code block, offset) selection are not pairs", T.loc(ofs_let))
+        return
+    elems = lambda t: t.get("es", t.get("elems"))
+    none_ofs = lin_of(elems(el)[1])
+    if none_ofs == {}:
+        res.holds(rule, fn, "offset:none", "without line numbers the offset is 0")
+    else:
+        res.add(Finding(rule, fn, "offset:none", "without line numbers the marker offset is `%s`, not 0: the markers leave the column of the removed text" % T.render(elems(el)[1]), loc=T.loc(ofs_let)))
+    some_ofs = lin_of(elems(th)[1])
+    snips = []
+    for n, _ in T.walk(i_["then"]):
+        sn = n.get("snip")
+        if sn and sn.startswith("format!") and sn not in snips:
+            snips.append(sn)
+    col = [sn for sn in snips if re.search(r"\$\}|\{:[<>^]?\d+\}", sn)]
+    if len(col) != 1:
+        res.cannot(rule, fn, "offset:some", "the number column is not produced by one width-formatted `format!` (found %d)" % len(col), T.loc(ofs_let))
+        return
+    w = format_width(col[0])
+    if w is None:
+        res.cannot(rule, fn, "offset:some", "the width of `%s` could not be read off its format string" % col[0][:70], T.loc(ofs_let))
+        return
+    if w == some_ofs:
+        res.holds(rule, fn, "offset:some", "number column width = %s = offset" % linear.show(w))
+    else:
+        res.add(Finding(rule, fn, "offset:some", "the number column `%s` is %s wide but the markers are shifted by %s" % (col[0][:80], linear.show(w), linear.show(some_ofs or {})), loc=T.loc(ofs_let)))
+
+
+def format_width(snip):
+    """Width of the text a `format!("..", args)` call produces, as a linear form, when every placeholder is either
+    width-formatted (`{:w$}`, `{:8}`; content assumed not wider) or a string literal argument; None if it cannot be told."""
+    m = re.match(r'^format!\(\s*"((?:[^"\\]|\\.)*)"\s*(?:,(.*))?\)$', snip, re.S)
+    if not m:
+        return None
+    fmt, rest = m.group(1), m.group(2) or ""
+    args, depth, cur = [], 0, ""
+    instr = False
+    for ch in rest:
+        if ch == '"':
+            instr = not instr
+        if not instr and ch in "([{":
+            depth += 1
+        if not instr and ch in ")]}":
+            depth -= 1
+        if ch == "," and depth == 0 and not instr:
+            args.append(cur.strip())
+            cur = ""
+        else:
+            cur += ch
+    if cur.strip():
+        args.append(cur.strip())
+    named = {}
+    positional = []
+    for a in args:
+        m2 = re.match(r"^(\w+)\s*=\s*(.+)$", a, re.S)
+        if m2 and not a.startswith('"'):
+            named[m2.group(1)] = m2.group(2).strip()
+        else:
+            positional.append(a)
+
+    def lin_text(t):
+        out = {}
+        for sign, tok in re.findall(r"([+-]?)\s*([\w:]+)", t.replace(" ", "")):
+            if not re.sub(r"[+\-\s\w:]", "", t) == "":
+                return None
+            sg = -1 if sign == "-" else 1
+            if tok.isdigit():
+                out["1"] = out.get("1", 0) + sg * int(tok)
+            else:
+                key = tok.split("::")[-1]
+                out[key] = out.get(key, 0) + sg
+        return {k_: v_ for k_, v_ in out.items() if v_}
+    total = {}
+    i = 0
+    nxt = 0
+    while i < len(fmt):
+        ch = fmt[i]
+        if ch == "\\":
+            total["1"] = total.get("1", 0) + 1
+            i += 2
+            continue
+        if ch == "{" and fmt[i:i + 2] == "{{" or ch == "}" and fmt[i:i + 2] == "}}":
+            total["1"] = total.get("1", 0) + 1
+            i += 2
+            continue
+        if ch == "{":
+            j = fmt.index("}", i)
+            spec = fmt[i + 1:j]
+            name, _, f_ = spec.partition(":")
+            if name == "":
+                argi = nxt
+                nxt += 1
+            mw = re.match(r"^[<>^]?(?:(\d+)|(\w+)\$)$", f_) if f_ else None
+            if mw:
+                if mw.group(1):
+                    wl = {"1": int(mw.group(1))}
+                else:
+                    src = named.get(mw.group(2))
+                    wl = lin_text(src) if src is not None else None
+                if wl is None:
+                    return None
+                for k_, v_ in wl.items():
+                    total[k_] = total.get(k_, 0) + v_
+            elif f_ == "" and name == "" and argi < len(positional) and re.match(r'^"[^"\\]*"$', positional[argi]):
+                total["1"] = total.get("1", 0) + len(positional[argi]) - 2
+            else:
+                return None
+            i = j + 1
+            continue
+        total["1"] = total.get("1", 0) + 1
+        i += 1
+    return {k_: v_ for k_, v_ in total.items() if v_}
